@@ -16,7 +16,6 @@ func main() {
 	// Real keys of height 10 and 12: the indices at which the index field grows into its second byte, reached by one
 	// jump from a fresh key and by signing across the boundary. (The walkers above reach them too, but with real hashes
 	// only in the thorough tier.)
-	hs := []int{10, 12}
 	targets := func(h int) []uint32 {
 		t := []uint32{254, 510, 766, 1018}
 		if h == 12 {
@@ -24,42 +23,44 @@ func main() {
 		}
 		return t
 	}
-	extra := &drv.Domain{Name: "real-two-byte-indices", Size: 3 * 2, Chunk: 1,
-		Desc: "real keys, h=10 and h=12 x 3 hash functions: SetIndex to 254, 510, 766, 1018 (h=12 also 1022, 2046, 4090) in ascending order on ONE key, four signatures after each jump (so every multiple of 256 is reached both by a jump landing just below it and by signing across it): every signature verifies under the library's Verify and under the reference verifier, and a changed message does not",
-		Run: func(c *drv.Ctx, lo, hi int64) {
-			for i := lo; i < hi; i++ {
-				c.At(i)
-				h, hf := hs[i/3], int(i%3)
-				seed := seeds.Seed48(20+int(i), c.Seed)
-				k := xmss.NewXMSSFromSeed(seed, uint8(h), xmss.HashFunction(hf), common.SHA256_2X)
-				c.Tick()
-				pk := k.GetPK()
-				for _, t := range targets(h) {
-					if out := drv.Call(func() { k.SetIndex(t) }); out != "ok" {
-						c.Fail(i, "setindex-refused-inside-tree", map[string]any{"height": h, "hash": hf, "target": t, "observed": out})
-						break
-					}
-					for s := uint32(0); s < 4; s++ {
-						msg := []byte(fmt.Sprintf("c01 two-byte index %d", t+s))
-						sig, err := k.Sign(msg)
-						c.Eval(1)
-						c.Nontrivial(1)
-						info := map[string]any{"height": h, "hash": hf, "index": t + s, "reached_by": fmt.Sprintf("jump to %d then %d signatures", t, s)}
-						if err != nil {
-							c.Fail(i, "sign-failed", info)
-							continue
-						}
-						okLib, okRef := xmss.Verify(msg, sig, pk), refxmss.Verify(msg, sig, pk[:], 16)
-						bad := xmss.Verify(append([]byte("x"), msg...), sig, pk)
-						if !okLib || !okRef || bad {
-							info["library_verify"], info["reference_verify"], info["other_message_accepted"] = okLib, okRef, bad
-							c.Fail(i, "signature-at-two-byte-index-does-not-verify", info)
-						}
-					}
+	mk := func(name, tier string, hs []int) *drv.Domain {
+		return &drv.Domain{Name: name, Tier: tier, Size: int64(3 * len(hs)), Chunk: 1,
+			Desc: "real keys (h=10 in both tiers, h=12 in the thorough tier) x 3 hash functions: SetIndex to 254, 510, 766, 1018 (h=12 also 1022, 2046, 4090) in ascending order on ONE key, four signatures after each jump (so every multiple of 256 is reached both by a jump landing just below it and by signing across it): every signature verifies under the library's Verify and under the reference verifier, and a changed message does not",
+			Run: func(c *drv.Ctx, lo, hi int64) {
+				for i := lo; i < hi; i++ {
+					c.At(i)
+					h, hf := hs[i/3], int(i%3)
+					seed := seeds.Seed48(20+int(i), c.Seed)
+					k := xmss.NewXMSSFromSeed(seed, uint8(h), xmss.HashFunction(hf), common.SHA256_2X)
 					c.Tick()
+					pk := k.GetPK()
+					for _, t := range targets(h) {
+						if out := drv.Call(func() { k.SetIndex(t) }); out != "ok" {
+							c.Fail(i, "setindex-refused-inside-tree", map[string]any{"height": h, "hash": hf, "target": t, "observed": out})
+							break
+						}
+						for s := uint32(0); s < 4; s++ {
+							msg := []byte(fmt.Sprintf("c01 two-byte index %d", t+s))
+							sig, err := k.Sign(msg)
+							c.Eval(1)
+							c.Nontrivial(1)
+							info := map[string]any{"height": h, "hash": hf, "index": t + s, "reached_by": fmt.Sprintf("jump to %d then %d signatures", t, s)}
+							if err != nil {
+								c.Fail(i, "sign-failed", info)
+								continue
+							}
+							okLib, okRef := xmss.Verify(msg, sig, pk), refxmss.Verify(msg, sig, pk[:], 16)
+							bad := xmss.Verify(append([]byte("x"), msg...), sig, pk)
+							if !okLib || !okRef || bad {
+								info["library_verify"], info["reference_verify"], info["other_message_accepted"] = okLib, okRef, bad
+								c.Fail(i, "signature-at-two-byte-index-does-not-verify", info)
+							}
+						}
+						c.Tick()
+					}
+					c.Outcome("verified")
 				}
-				c.Outcome("verified")
-			}
-		}}
-	e1cases.MainWith("C01", []*drv.Domain{extra})
+			}}
+	}
+	e1cases.MainWith("C01", []*drv.Domain{mk("real-two-byte-indices", "", []int{10}), mk("real-two-byte-indices-h12", "t", []int{12})})
 }
